@@ -78,6 +78,7 @@ func FaultOps() []Op {
 		{Text: `{argBoom(b:"x") t{boom name}}`},
 		{Text: `query($b:Boom){argBoom(b:$b) str}`, Vars: map[string]any{"b": "y"}},
 		{Text: `{ts{boom kids{boom}}}`},
+		{Text: `{peers{id peer{id}} node{id} u{__typename}}`},
 	}
 }
 
